@@ -30,6 +30,9 @@ use crate::{
 /// Default embedding dimension for state snapshots.
 pub(crate) const DEFAULT_EMBEDDING_DIM: usize = 128;
 
+/// Store-key prefix of the chain's own records (`chain:block:<height>`, `chain:meta`).
+const RESERVED_CHAIN_PREFIX: &str = "chain:";
+
 /// Apply a single transaction to the given `TensorStore`.
 ///
 /// This is shared between the state machine (Raft log application) and
@@ -356,6 +359,14 @@ impl TransactionWorkspace {
             return Err(ChainError::TransactionFailed(
                 "transaction is not active".to_string(),
             ));
+        }
+
+        // The chain keeps its block records and its height record in the same
+        // store under this prefix; a transaction must not overwrite or delete them.
+        if op.storage_key().starts_with(RESERVED_CHAIN_PREFIX) {
+            return Err(ChainError::TransactionFailed(format!(
+                "key uses the reserved prefix {RESERVED_CHAIN_PREFIX:?}"
+            )));
         }
 
         // Keys are tracked for conflict detection during commit
